@@ -3539,13 +3539,20 @@ static Node *primary(Token **rest, Token *tok) {
   if (equal(tok, "_Alignof") && equal(tok->next, "(") && is_typename(tok->next->next)) {
     Type *ty = typename(&tok, tok->next->next);
     *rest = skip(tok, ")");
+
+    // A variable length array is aligned like its elements.
+    while (ty->kind == TY_VLA)
+      ty = ty->base;
     return new_ulong(ty->align, tok);
   }
 
   if (equal(tok, "_Alignof")) {
     Node *node = unary(rest, tok->next);
     add_type(node);
-    return new_ulong(node->ty->align, tok);
+    Type *ty = node->ty;
+    while (ty->kind == TY_VLA)
+      ty = ty->base;
+    return new_ulong(ty->align, tok);
   }
 
   if (equal(tok, "_Generic"))
